@@ -184,6 +184,11 @@ func main() {
 	if os.Getenv("GOGC") == "" {
 		debug.SetGCPercent(600)
 	}
+	if os.Getenv("GOMEMLIMIT") == "" {
+		// a soft ceiling for the Go heap: with the lazy collection above a long deep pass otherwise grows to tens of
+		// gigabytes of garbage (one thorough run was killed by the kernel at 65 GB)
+		debug.SetMemoryLimit(16 << 30)
+	}
 	prefault()
 	root := verifRoot()
 	t0 := time.Now()
@@ -232,6 +237,13 @@ func main() {
 	exploreT := time.Since(t0) - ld.loadT
 
 	rep := &report{cfg: cfg, sh: sh, root: root, nb: nb, loadT: ld.loadT, exploreT: exploreT, head: repoHead()}
+	if hp := os.Getenv("VERIF_HEAPPROFILE"); hp != "" {
+		if f, err := os.Create(hp); err == nil {
+			runtime.GC()
+			pprof.WriteHeapProfile(f)
+			f.Close()
+		}
+	}
 	rep.processViolations()
 	if !*noSelf {
 		rep.selftest(ld)
